@@ -30,6 +30,36 @@ type crashHist struct {
 	ID    string        `json:"id"`
 	Steps []seqStep     `json:"steps"`
 	P     *world.Params `json:"params,omitempty"`
+	// Legacy: the database file already exists when the code under verification first opens it: it was written by the RELEASE under
+	// verification (the schema of internal/persistence/sql at the pinned commit, one row for l1 holding an acknowledged checkpoint of
+	// size 1), not by the tree. The kill window then includes start-up (Init), where an upgrade of the file would happen.
+	Legacy bool `json:"legacy,omitempty"`
+}
+
+// pinnedSchema is the table the pinned release creates (internal/persistence/sql Init at the commit under verification).
+const pinnedSchema = `CREATE TABLE IF NOT EXISTS chkpts (
+		logID BLOB PRIMARY KEY,
+		chkpt BLOB,
+		range BLOB
+		)`
+
+// legacyS1 is the request whose acceptance the legacy file records, and writeLegacyDB writes that file without the code under verification.
+var legacyS1 = world.Req{Auth: "good", Old: 0, B: 0, N: 1, Pf: world.Pf{K: "empty"}}
+
+func writeLegacyDB(path string, w *world.World) error {
+	os.Remove(path)
+	db, err := sql.Open("sqlite3", path)
+	if err != nil {
+		return err
+	}
+	defer db.Close()
+	if _, err := db.Exec(pinnedSchema); err != nil {
+		return err
+	}
+	c := w.Concretise("l1", legacyS1, nil)
+	cosigned := string(c.CP) + w.WitKey.SignLegacy(c.Text) + w.WitKey.SignCosigV1(c.Text, uint64(time.Now().Unix()))
+	_, err = db.Exec("INSERT OR REPLACE INTO chkpts (logID, chkpt, range) VALUES (?, ?, NULL)", c.LogID, []byte(cosigned))
+	return err
 }
 
 // ---- child: performs the history on a file-backed SQLite store and kills itself at boundary -kill ----
@@ -73,22 +103,35 @@ func crashChild(args []string) error {
 	if err != nil {
 		return err
 	}
+	var prev *world.CP
+	if h.Legacy {
+		// (the file was written by the parent before this process started: no kill can land inside that)
+		s1 := world.CP{B: 0, N: 1, Lines: 1 + w.P.NWitKeys, Ext: 0}
+		prev = &s1
+		// start-up on the existing file is inside the kill window
+		hook.mu.Lock()
+		hook.boundary = 0
+		hook.ops = nil
+		hook.killAt = *kill
+		hook.mu.Unlock()
+	}
 	db, err := openVerifDB(*dbPath)
 	if err != nil {
 		return err
 	}
 	p := psql.NewPersistence(db)
-	wit, err := newWitness(w, p) // Init creates the table (not part of the kill window)
+	wit, err := newWitness(w, p) // Init creates the table (part of the kill window only for a legacy file)
 	if err != nil {
 		return err
 	}
-	hook.mu.Lock()
-	hook.boundary = 0
-	hook.ops = nil
-	hook.killAt = *kill
-	hook.mu.Unlock()
+	if !h.Legacy {
+		hook.mu.Lock()
+		hook.boundary = 0
+		hook.ops = nil
+		hook.killAt = *kill
+		hook.mu.Unlock()
+	}
 	ctx := context.Background()
-	var prev *world.CP
 	for k, s := range h.Steps {
 		if s.Op != "update" {
 			continue
@@ -281,6 +324,15 @@ func crashMain(args []string) error {
 		}
 		// dry run: the real sequence of driver-operation boundaries of this history
 		dbp := filepath.Join(*dir, "dry-"+h.ID+".db")
+		if h.Legacy {
+			_, lw, err := loadHist(hpath)
+			if err != nil {
+				return err
+			}
+			if err := writeLegacyDB(dbp, lw); err != nil {
+				return err
+			}
+		}
 		t0 := time.Now()
 		lines, err := runChild(self, []string{"crash-child", "-db", dbp, "-hist", hpath}, 0)
 		dur := time.Since(t0)
@@ -323,6 +375,20 @@ func crashMain(args []string) error {
 				tag := fmt.Sprintf("%s@%d#%d", j.h.ID, j.point, id)
 				dbp := filepath.Join(*dir, fmt.Sprintf("crash-%d.db", id))
 				cargs := []string{"crash-child", "-db", dbp, "-hist", j.hpath}
+				if j.h.Legacy {
+					_, lw, lerr := loadHist(j.hpath)
+					if lerr == nil {
+						lerr = writeLegacyDB(dbp, lw)
+					}
+					if lerr != nil {
+						mu.Lock()
+						if firstErr == nil {
+							firstErr = lerr
+						}
+						mu.Unlock()
+						continue
+					}
+				}
 				if j.point >= 0 {
 					cargs = append(cargs, "-kill", fmt.Sprint(j.point))
 				}
@@ -330,6 +396,11 @@ func crashMain(args []string) error {
 				var ev []any
 				if err == nil {
 					ev = append(ev, crashEvent{E: "reset", Run: tag})
+					if j.h.Legacy {
+						s1 := world.CP{B: 0, N: 1, Lines: 1 + hdr.Params.NWitKeys, Ext: 0}
+						rq := legacyS1
+						ev = append(ev, crashEvent{E: "upd", Run: tag, K: -1, Req: &rq, Log: "l1", Acked: true, V: "Accept", RetCP: &s1})
+					}
 					acked := map[int]bool{}
 					begun := -1
 					for _, l := range lines {
